@@ -479,6 +479,10 @@ class WireEngine(BaseEngine):
             if rng.random() < 0.3:
                 for _ in range(rng.randint(1, 4)):
                     extra.append(['delay', pick(rng, (0.001, 0.4, 2.5, 60.0, 86400.0))])
+            if rng.random() < 0.25:
+                # the transport hands over nothing (a zero-length read): legal, and it carries no bytes
+                for _ in range(rng.randint(1, 4)):
+                    extra.append(['feed_empty', pick(rng, ('bytes', 'bytes', 'bytearray', 'list', 'tuple', 'gen'))])
             if extra:
                 # interleave, keeping the relative order of both lists
                 merged = []
@@ -558,7 +562,8 @@ class WireEngine(BaseEngine):
                 'how': pick(rng, HOWS + ('parse_all',)),
                 'mutate': rng.random() < 0.3,
                 'bg': [pick(rng, BG_KINDS) for _ in range(rng.randint(1, 4))] if rng.random() < 0.3 else [],
-                'delays': [pick(rng, (0.0, 0.001, 0.4, 2.5, 3600.0)) for _ in range(3)] if rng.random() < 0.3 else []}
+                'delays': [pick(rng, (0.0, 0.001, 0.4, 2.5, 3600.0)) for _ in range(3)] if rng.random() < 0.3 else [],
+                'take': pick(rng, ('list', 'list', 'get', 'first'))}
 
     # ---------------- execution
     def run(self, prop, plan, keep_log=False):
@@ -701,6 +706,11 @@ class WireEngine(BaseEngine):
                         m = self._call('twin.get', twin.get_message)
                         if m is not None:
                             twin_got.append(snap(m))
+                elif kind == 'feed_empty':
+                    if mode in ('parser', 'pq'):
+                        self._call(f'feed[{op[1]}:empty]' if mode == 'parser' else f'feed@{mode}', rx.feed, op[1], [])
+                        stats['fault:empty_delivery'] += 1
+                        log.ev('feed_empty', op[1])
                 elif kind == 'feed':
                     size = min(op[2], n - fed)
                     if size <= 0:
@@ -882,7 +892,28 @@ class WireEngine(BaseEngine):
                 stats['probe:undefined_status_mid_message'] += 1
             prev = b
 
-    def _parse_chunked(self, where, data, chunks, how, delays=()):
+    def _take(self, where, p, take):
+        """Collect what the parser has ready, the way the plan's consumer does it."""
+        if take == 'get':
+            out = []
+            while True:
+                m = self._call(f'{where}:get_message', p.get_message)
+                if m is None:
+                    return out
+                out.append(m)
+        if take == 'first':
+            out = []
+            while self._call(f'{where}:pending', p.pending):
+                n0 = len(out)
+                for m in p:          # a consumer that takes one message and leaves the loop
+                    out.append(m)
+                    break
+                if len(out) == n0:
+                    break
+            return out
+        return self._call(f'{where}:iter', list, p)
+
+    def _parse_chunked(self, where, data, chunks, how, delays=(), take='list'):
         """Parse `data` with a fresh real parser, cut as `chunks` says (virtual time may pass between cuts)."""
         if how == 'parse_all':
             return self._call(f'{where}:parse_all', mido.parse_all, list(data))
@@ -913,8 +944,8 @@ class WireEngine(BaseEngine):
             else:
                 self._call(f'{where}:feed', p.feed, _as(how, part))
             if len(out) % 2:
-                out.extend(self._call(f'{where}:iter', list, p))
-        out.extend(self._call(f'{where}:iter', list, p))
+                out.extend(self._take(where, p, take))
+        out.extend(self._take(where, p, take))
         return out
 
     def _run_c06(self, plan, log, stats, cov):
@@ -965,7 +996,10 @@ class WireEngine(BaseEngine):
             stats['fault:consumer_mutates_message'] += 1
         for k in plan.get('bg', [])[2:]:
             background(k, stream, stats)
-        b = [snap(m) for m in self._parse_chunked('full', stream, plan['chunks_full'], how, plan.get('delays', ()))]
+        b = [snap(m) for m in self._parse_chunked('full', stream, plan['chunks_full'], how, plan.get('delays', ()),
+                                                  plan.get('take', 'list'))]
+        if plan.get('take', 'list') != 'list':
+            stats['fault:consumer_takes_one_at_a_time'] += 1
         log.ev('full', len(stream), len(b), [repr(x) for x in b[:50]])
         stats['steps'] += 2
         expected = a + expected_tail
